@@ -60,7 +60,13 @@ class Gen:
 
     def construct(self, depth):
         r = self.rng
-        kind = r.choice(["do", "if", "block", "associate", "where", "critical", "named_do", "named_block"])
+        kind = r.choice(["do", "if", "block", "associate", "where", "critical", "named_do", "named_block", "label_do", "label_do"])
+        if kind == "label_do":
+            # DO <label> closed by a labelled END DO or a labelled CONTINUE; labels are re-used by later loops of the same procedure
+            self.counters["do"] += 1
+            lab = r.choice(["10", "20"])
+            return {"kind": "KDo", "name": "#DO%d" % self.counters["do"], "open": "do %s i = 1, 3" % lab, "end": r.choice(["%s end do", "%s continue", "%s   enddo"]) % lab,
+                    "bare": False, "ends": ["ERDo"], "body": [self.exec_stmt() for _ in range(r.choice([0, 1]))]}
         # counters advance in order of appearance: the construct is numbered before its body
         if kind in ("do", "named_do"):
             self.counters["do"] += 1
@@ -141,13 +147,18 @@ class Gen:
 
     def interface(self):
         r = self.rng
-        style = r.choice(["named", "abstract", "unnamed"])
+        style = r.choice(["named", "abstract", "unnamed", "generic_spec"])
         body = [self.proc(2, in_interface=True) for _ in range(r.choice([1, 2]))]
         if style == "named":
             nm = self.name("gi_")
             return {"kind": "KInt", "name": nm, "open": "interface %s" % nm, "end": r.choice(["end interface", "end interface %s" % nm]), "bare": False,
                     "ends": ["ERInt"], "body": body, "sym": "interface"}
         self.gen_int = getattr(self, "gen_int", 0) + 1
+        if style == "generic_spec":
+            # an interface for an operator or assignment: not a named interface; its END may repeat the generic spec
+            spec = r.choice(["operator(.dot.)", "operator(+)", "assignment(=)", "operator( == )"])
+            return {"kind": "KInt", "name": "#GEN_INT%d" % self.gen_int, "open": "interface %s" % spec,
+                    "end": r.choice(["end interface", "end interface %s" % spec, "END INTERFACE %s" % spec.upper()]), "bare": False, "ends": ["ERInt"], "body": body, "sym": None}
         return {"kind": "KInt", "name": "#GEN_INT%d" % self.gen_int, "open": "abstract interface" if style == "abstract" else "interface",
                 "end": "end interface", "bare": False, "ends": ["ERInt"], "body": body, "sym": None}
 
